@@ -30,6 +30,7 @@ enum Point : int
   UQ_BEFORE_PUBLISH_NEXT = 10, // producer: after commit to the old node, before next.store
   UQ_NEXT_SEEN = 11,           // consumer: non-null next loaded, before the re-read of the old node
   UQ_BEFORE_DELETE = 12,       // consumer: before the old node is deleted
+  UQ_OLD_EMPTY_SEEN = 13,      // consumer: current node found empty, before next is loaded
 
   // backend worker
   BW_POLL_BEGIN = 20,
